@@ -44,6 +44,9 @@ def bytes_term(repo: Repo, ci: ClassInfo, fn: FunctionInfo, expr: ast.AST) -> Te
     pc = pack_call(expr)
     if pc is not None:
         return Term("const", pc[0].size)
+    if isinstance(expr, ast.Call) and ((isinstance(expr.func, ast.Attribute) and expr.func.attr == "to_bytes") or call_name(expr) == "bytes"):
+        from .match import packed_bytes
+        return Term("const", len(packed_bytes(expr)))
     if isinstance(expr, ast.BinOp) and isinstance(expr.op, ast.Add):
         a, b = bytes_term(repo, ci, fn, expr.left), bytes_term(repo, ci, fn, expr.right)
         if a.kind in ("zero", "const") and b.kind in ("zero", "const"):
